@@ -235,9 +235,15 @@ async def _run_pool(sc):
     pools = []
 
     orig_push = helpers.TaskPool.push
-    orig_wait_impl = helpers.TaskPool._wait_impl
-    real_asyncio = helpers.asyncio
+    # the pool's size is read from its internals; when they are not where they used to be the scenario still runs and
+    # the bound on concurrently running tasks is still monitored, only the comparison with the pool model is skipped
+    orig_wait_impl = getattr(helpers.TaskPool, "_wait_impl", None)
+    real_asyncio = getattr(helpers, "asyncio", None)
     task_ids = {}
+
+    def size(pool):
+        t = getattr(pool, "_tasks", None)
+        return len(t) if t is not None else -1
 
     async def push(self, coro):
         tid = next(tid_counter)
@@ -251,9 +257,9 @@ async def _run_pool(sc):
                 return await coro
             finally:
                 running[0] -= 1
-                log.append(("end", tid, len(pool._tasks)))
+                log.append(("end", tid, size(pool)))
         await orig_push(self, wrapped())
-        log.append(("add", tid, len(self._tasks)))
+        log.append(("add", tid, size(self)))
 
     async def wait_proxy(fs, *, timeout=None, return_when="ALL_COMPLETED"):
         done, pending = await real_asyncio.wait(fs, timeout=timeout, return_when=return_when)
@@ -266,14 +272,18 @@ async def _run_pool(sc):
         # the collection happened atomically after the last wake of this call: stamp it with the size
         for k in range(len(log) - 1, n0 - 1, -1):
             if log[k][0] == "wake" and log[k][2] is None:
-                log[k] = ("wake", log[k][1], len(self._tasks))
+                log[k] = ("wake", log[k][1], size(self))
                 break
         return r
     helpers.TaskPool.push = push
-    helpers.TaskPool._wait_impl = _wait_impl
-    helpers.asyncio = types.SimpleNamespace(**{k: getattr(real_asyncio, k) for k in dir(real_asyncio)
-                                               if not k.startswith("__")})
-    helpers.asyncio.wait = wait_proxy
+    hooked = orig_wait_impl is not None and real_asyncio is not None
+    if hooked:
+        helpers.TaskPool._wait_impl = _wait_impl
+        helpers.asyncio = types.SimpleNamespace(**{k: getattr(real_asyncio, k) for k in dir(real_asyncio)
+                                                   if not k.startswith("__")})
+        helpers.asyncio.wait = wait_proxy
+    else:
+        log.append(("unhooked", None, None))
     outcome = "Returned"
     detail = ""
     try:
@@ -327,8 +337,9 @@ async def _run_pool(sc):
             lg.setLevel(old)
     finally:
         helpers.TaskPool.push = orig_push
-        helpers.TaskPool._wait_impl = orig_wait_impl
-        helpers.asyncio = real_asyncio
+        if hooked:
+            helpers.TaskPool._wait_impl = orig_wait_impl
+            helpers.asyncio = real_asyncio
     return log, outcome, detail, max_running[0]
 
 
